@@ -252,6 +252,11 @@ class Align:
                 return self.rec_env[t[1]]
             return Opaque(f"loop-carried {t[1]}")
         if k == "ifexp":
+            tv = self._truth(t[1])
+            if tv is True:
+                return self.ev(t[2])
+            if tv is False:
+                return self.ev(t[3])
             return self._join([self.ev(t[2]), self.ev(t[3])], t)
         if k == "tuple" or k == "list":
             return TupleV([self.ev(x) for x in t[1]])
@@ -355,6 +360,25 @@ class Align:
         if k == "unknown":
             return Opaque(t[1])
         return Opaque(k)
+
+    def _truth(self, t):
+        """Static truth of a test term where decidable (None otherwise)."""
+        if t[0] == "cmp" and t[1] in ("is", "is not") and \
+                t[3] == ("const", None):
+            v = self.ev(t[2])
+            if isinstance(v, Scalar) and v.has_const:
+                r = v.const is None
+            elif isinstance(v, (Arr, Perm, TupleV)):
+                r = False
+            else:
+                return None
+            return r if t[1] == "is" else (not r)
+        if t[0] == "const":
+            return bool(t[1])
+        if t[0] == "un" and t[1] == "not":
+            r = self._truth(t[2])
+            return None if r is None else (not r)
+        return None
 
     # --------------------------------------------------------------- joins
     def _join(self, vals, t):
@@ -517,6 +541,14 @@ class Align:
                     return self._flip(base)
                 if st == ("const", None):
                     return base
+            if isinstance(base, Arr) and isinstance(base.space[0], tuple) \
+                    and base.space[0][0] == "edges" and not base.space[1] \
+                    and st == ("const", None) and (lo, hi) in (
+                        (("const", None), ("const", -1)),
+                        (("const", 1), ("const", None))):
+                # lower / upper edges of histogram bins: one value per bin
+                return Arr((("hist", base.space[0][1]), ()), q=("edge",),
+                           mono=base.mono)
             if isinstance(base, Arr):
                 return Arr((("slice", show(t, 80)), ()), q=base.q,
                            mono=base.mono, nonneg=base.nonneg)
@@ -700,6 +732,12 @@ class Align:
             if len(args) == 1:
                 sp = self._len_space(args[0])
                 return Perm("id", sp, special="identity")
+            if len(args) >= 2 and args[0] == ("const", 1) and \
+                    args[1][0] == "bin" and args[1][1] == "+" and \
+                    args[1][3] == ("const", 1):
+                sp = self._len_space(args[1][2])
+                if sp is not None:
+                    return Arr(sp, q=("rank",), mono="INC", nonneg=True)
             return Arr((("range", show(t, 80)), ()), q=("range",),
                        mono="INC", nonneg=True)
         if fname == NP + "linspace":
@@ -746,8 +784,9 @@ class Align:
         if n[0] == "call" and n[1] == "builtins.len" and n[2]:
             v = self.ev(n[2][0])
             if isinstance(v, Arr):
-                return (v.space[0], tuple(
-                    op for op in v.space[1] if op[0] == "M"))
+                if any(op[0] == "M" for op in v.space[1]):
+                    return v.space
+                return (v.space[0], ())
         if n[0] == "sub" and n[1][0] == "attr" and n[1][2] == "shape":
             v = self.ev(n[1][1])
             if isinstance(v, Arr):
@@ -768,12 +807,9 @@ class Align:
             if isinstance(q, tuple) and q and q[0] == "neg":
                 q = q[1]
                 direction = "desc"
-            pid = f"argsort({'-' if direction == 'desc' else ''}{_qstr(q)})" \
-                  f"@{fmt_space(v.space)}"
-            PERM_INFO[pid] = (_qstr(q), direction)
             self.events.add("argsort", key=q, direction=direction,
                             over=v.space, term=show(t, 160))
-            return Perm(pid, v.space, sortkey=q, direction=direction)
+            return make_sort_perm(q, direction, v.space)
         return Opaque(f"argsort of {v!r}")
 
     def _cumsum(self, t, v):
@@ -811,6 +847,10 @@ class Align:
             full = f"{base_t[1]}.{meth}"
             return self._call(t, full, args, kwargs)
         base = self.ev(base_t)
+        if meth == "astype" and args and args[0] in (
+                ("free", "bool"), ("name", "builtins.bool"),
+                ("name", "numpy.bool_")) and isinstance(base, Arr):
+            return base.with_(is_mask=True, mkey=_strip_key(t))
         if meth in ELEMENTWISE_METHODS:
             if isinstance(base, Arr) and meth in ("round", "abs"):
                 return base.with_(q=("expr", show(t, 100)))
@@ -824,6 +864,12 @@ class Align:
         if meth in ("dot",):
             v = self.ev(args[0]) if args else None
             if isinstance(v, Arr):
+                if isinstance(base, Arr) and not same_space(
+                        base.space, v.space):
+                    self.issue(
+                        "diagonal weights and the vector they multiply are "
+                        f"in different row spaces: {fmt_space(base.space)} "
+                        f"vs {fmt_space(v.space)}", t)
                 return Arr(v.space, q=("expr", show(t, 100)))
             return Opaque("dot")
         if meth == "nonzero":
@@ -885,9 +931,10 @@ class Align:
                 v = Opaque(f"unbound parameter {p}")
             env[p] = v
             if isinstance(v, Scalar) and v.has_const and (
-                    isinstance(v.const, bool) or v.const is None) and \
-                    is_never_reassigned(f.node, p):
+                    isinstance(v.const, bool) or v.const is None):
                 flags[p] = v.const
+            elif isinstance(v, (Arr, Perm, TupleV)):
+                flags[p] = NOT_NONE
         fnode = specialise(f.node, flags) if flags else f.node
         du = DefUse(prog, f, fnode)
         terms = Terms(du)
@@ -902,6 +949,23 @@ class Align:
         if not rets:
             return Opaque(f"{fname} returns nothing")
         return sub._join(rets, t) if len(rets) > 1 else rets[0]
+
+
+def make_sort_perm(q, direction, over):
+    pid = f"argsort({'-' if direction == 'desc' else ''}{_qstr(q)})" \
+          f"@{fmt_space(over)}"
+    PERM_INFO[pid] = (_qstr(q), direction)
+    return Perm(pid, over, sortkey=q, direction=direction)
+
+
+class NotNone:
+    """flag value for 'parameter is bound to a non-None value'"""
+
+    def __repr__(self):
+        return "<not None>"
+
+
+NOT_NONE = NotNone()
 
 
 def _apply_perm(space, p: Perm):
